@@ -143,6 +143,18 @@ func runCheck[C any](t *testing.T, id string, gen func(*rapid.T) C, exec func(C)
 		}
 		cj, _ := json.Marshal(c)
 		writeFileAtomic(filepath.Join(outDir(), "current-"+id+".json"), wrap(cj))
+		for i, raw := range rf.Sequence {
+			var pc C
+			if err := json.Unmarshal(raw, &pc); err != nil {
+				t.Fatalf("cannot decode case %d of the sequence: %v", i, err)
+			}
+			if po := exec(pc); po.Err != nil && po.Known == "" && !po.Inconclusive {
+				st.Violations++
+				st.Failure = po.Err.Error()
+				fmt.Printf("REPLAY-FAIL property=%s: (case %d of the sequence) %v\n", id, i, po.Err)
+				t.Fatalf("replay failed at case %d of the sequence: %v", i, po.Err)
+			}
+		}
 		o := exec(c)
 		st.record(cj, o)
 		if o.Inconclusive {
@@ -163,6 +175,9 @@ func runCheck[C any](t *testing.T, id string, gen func(*rapid.T) C, exec func(C)
 		return
 	}
 
+	// every case executed by this process up to its first failure, in order (see replayFile.Sequence)
+	seqOpen, seqN := true, 0
+	seqPath := filepath.Join(outDir(), "seq-"+id+".jsonl")
 	rapid.Check(t, func(rt *rapid.T) {
 		c := gen(rt)
 		cj, err := json.Marshal(c)
@@ -170,6 +185,13 @@ func runCheck[C any](t *testing.T, id string, gen func(*rapid.T) C, exec func(C)
 			rt.Fatalf("case not serialisable: %v", err)
 		}
 		writeFileAtomic(filepath.Join(outDir(), "current-"+id+".json"), wrap(cj))
+		if seqOpen && seqN < 3000 {
+			if f, err := os.OpenFile(seqPath, os.O_APPEND|os.O_CREATE|os.O_WRONLY, 0o644); err == nil {
+				f.Write(append(append([]byte{}, cj...), '\n'))
+				f.Close()
+				seqN++
+			}
+		}
 		t0 := time.Now()
 		o := exec(c)
 		if d := time.Since(t0); d > 5*time.Second || o.Inconclusive {
@@ -187,7 +209,10 @@ func runCheck[C any](t *testing.T, id string, gen func(*rapid.T) C, exec func(C)
 			st.Violations++
 			st.Failure = o.Err.Error()
 			st.mu.Unlock()
-			writeFileAtomic(filepath.Join(outDir(), "failing-"+id+".json"), wrap(cj))
+			if seqOpen {
+				seqOpen = false
+				writeFileAtomic(filepath.Join(outDir(), "failing-"+id+".json"), wrap(cj))
+			}
 			rt.Fatalf("property %s violated: %v", id, o.Err)
 		}
 	})
@@ -217,6 +242,9 @@ type replayFile struct {
 	Test     string          `json:"test"`
 	Case     json.RawMessage `json:"case"`
 	Note     string          `json:"note,omitempty"`
+	// Sequence, when present, lists the cases the generating process had executed before Case, in order:
+	// a failure that needs them (state shared between the instances of one process) replays with them
+	Sequence []json.RawMessage `json:"sequence,omitempty"`
 }
 
 // runEnum drives an enumerated (non-random) list of cases through the same
